@@ -258,6 +258,9 @@ class _ATAt:
         return self.a[self.idx]
 
     def add(self, v, **k):
+        r = self._concrete(v, add=True)
+        if r is not None:
+            return r
         if isinstance(self.a, AT) and all(p.is_zero() for p in self.a.entries()):
             return term('at_set', self.a, self.idx, v)      # adding to zeros == setting
         return term('at_add', self.a, self.idx, v)
